@@ -33,10 +33,16 @@ import (
 	// generator test schemas: more import shapes for C40 (they register under their own packages)
 	_ "google.golang.org/protobuf/cmd/protoc-gen-go/testdata/annotations"
 	_ "google.golang.org/protobuf/cmd/protoc-gen-go/testdata/comments"
+	_ "google.golang.org/protobuf/cmd/protoc-gen-go/testdata/enumprefix"
 	_ "google.golang.org/protobuf/cmd/protoc-gen-go/testdata/extensions/base"
 	_ "google.golang.org/protobuf/cmd/protoc-gen-go/testdata/extensions/ext"
 	_ "google.golang.org/protobuf/cmd/protoc-gen-go/testdata/extensions/extra"
+	_ "google.golang.org/protobuf/cmd/protoc-gen-go/testdata/featureresolution"
+	_ "google.golang.org/protobuf/cmd/protoc-gen-go/testdata/features"
 	_ "google.golang.org/protobuf/cmd/protoc-gen-go/testdata/fieldnames"
+	_ "google.golang.org/protobuf/cmd/protoc-gen-go/testdata/import_option"
+	_ "google.golang.org/protobuf/cmd/protoc-gen-go/testdata/import_option_custom"
+	_ "google.golang.org/protobuf/cmd/protoc-gen-go/testdata/import_option_unlinked"
 	_ "google.golang.org/protobuf/cmd/protoc-gen-go/testdata/import_public"
 	_ "google.golang.org/protobuf/cmd/protoc-gen-go/testdata/import_public/sub"
 	_ "google.golang.org/protobuf/cmd/protoc-gen-go/testdata/import_public/sub2"
@@ -45,9 +51,16 @@ import (
 	_ "google.golang.org/protobuf/cmd/protoc-gen-go/testdata/imports/test_a_1"
 	_ "google.golang.org/protobuf/cmd/protoc-gen-go/testdata/imports/test_a_2"
 	_ "google.golang.org/protobuf/cmd/protoc-gen-go/testdata/imports/test_b_1"
+	_ "google.golang.org/protobuf/cmd/protoc-gen-go/testdata/issue780_oneof_conflict"
+	_ "google.golang.org/protobuf/cmd/protoc-gen-go/testdata/nameclash/test_name_clash_hybrid"
+	_ "google.golang.org/protobuf/cmd/protoc-gen-go/testdata/nameclash/test_name_clash_opaque"
+	_ "google.golang.org/protobuf/cmd/protoc-gen-go/testdata/nameclash/test_name_clash_open"
+	_ "google.golang.org/protobuf/cmd/protoc-gen-go/testdata/nopackage"
 	_ "google.golang.org/protobuf/cmd/protoc-gen-go/testdata/proto2"
 	_ "google.golang.org/protobuf/cmd/protoc-gen-go/testdata/proto3"
 	_ "google.golang.org/protobuf/cmd/protoc-gen-go/testdata/protoeditions"
+	_ "google.golang.org/protobuf/cmd/protoc-gen-go/testdata/retention"
+	_ "google.golang.org/protobuf/cmd/protoc-gen-go/testdata/visibility"
 	_ "google.golang.org/protobuf/types/known/anypb"
 	_ "google.golang.org/protobuf/types/known/durationpb"
 	_ "google.golang.org/protobuf/types/known/structpb"
